@@ -525,6 +525,7 @@ class MolGraph:
         :param atoms: Iterable of atom ids to be
         :return: Subgraph
         """
+        atoms = tuple(atoms)
         new_atoms = set(atoms)
         atom_attrs = {atom: self._atom_attrs[atom] for atom in atoms}
         bond_attrs = {
